@@ -76,6 +76,11 @@ def condState (cond order : String) : Option St :=
     -- before 8f682d1 the receiver stopped reading at 9000 bytes, waiting for a read block of free space)
     some { sh := { baseSh with inR := { buf := 15000 }, stream := [⟨3, 16000, .normal []⟩], wire := 0 },
            recv := .read, proc := .msg, ks := [.idle] }
+  | "chunknear" =>
+    -- a PUBLISH of exactly the ring size, all but its last byte: one byte of the ring is free, the
+    -- receiver is inside a socket read
+    some { sh := { baseSh with inR := { buf := 16383 }, stream := [⟨3, 16384, .normal []⟩], wire := 0 },
+           recv := .read, proc := .msg, ks := [.idle] }
   | "chunkwhole" =>
     -- the whole 16 000-byte PUBLISH in pieces of varying sizes (nobody is subscribed): it is processed,
     -- the connection is idle afterwards
